@@ -91,6 +91,21 @@ def _cells():
     B("matrix_norm:real_ord1", "utils.matrix_norm", [REAL, 1], argclass="real dtype")
     B("matrix_norm:real_ord2", "utils.matrix_norm", [REAL, 2], argclass="real dtype")
     B("matrix_norm:real_ordinf", "utils.matrix_norm", [REAL, "inf"], argclass="real dtype")
+    # routines that reach the quaternion-dtype guard of real_expand (or an own one) for every
+    # shape: non-quaternion input of every dtype at the regular and at the boundary shapes
+    # (a fast path for 1 x 1 / single rows / single columns must not bypass the guard)
+    for shp_nm, (mm_, nn_) in (("4x4", (4, 4)), ("1x1", (1, 1)), ("1x3", (1, 3)), ("3x1", (3, 1))):
+        for dt_nm, gen_ in (("real", "real"), ("complex", "complex"), ("int", "realint")):
+            M_ = {"gen": gen_, "m": mm_, "n": nn_, "seed": 70 + mm_ + nn_}
+            cls_ = {"real": "real dtype", "complex": "complex dtype", "int": "integer dtype"}[dt_nm]
+            B(f"rank:{dt_nm}_{shp_nm}", "utils.rank", [M_], argclass=cls_)
+            B(f"qr_qua:{dt_nm}_{shp_nm}", "decomp.qsvd.qr_qua", [M_], argclass=cls_)
+            B(f"classical_qsvd_full:{dt_nm}_{shp_nm}", "decomp.qsvd.classical_qsvd_full", [M_], argclass=cls_)
+            B(f"classical_qsvd:{dt_nm}_{shp_nm}", "decomp.qsvd.classical_qsvd", [M_, 1], argclass=cls_)
+            for fn_ in ("quat_null_space", "quat_null_right", "quat_null_left", "quat_kernel"):
+                B(f"{fn_}:{dt_nm}_{shp_nm}", f"utils.{fn_}", [M_], argclass=cls_)
+            if mm_ == nn_:
+                B(f"det_dieudonne:{dt_nm}_{shp_nm}", "utils.det", [M_, "Dieudonne"], argclass=cls_)
     B("real_expand:real", "utils.real_expand", [REAL], argclass="real dtype")
     B("real_expand:complex", "utils.real_expand", [CPLX], argclass="complex dtype")
     B("real_contract:shape", "utils.real_contract", [{"gen": "real", "m": 8, "n": 8, "seed": 3}, 3, 2],
@@ -498,5 +513,5 @@ def evidence_extra(jobs, results):
             "exhaustive": len(done) == total,
             "unguarded_not_claimed": [
                 "unknown Schur `variant` / `shift` strings", "unknown `preconditioner` string of QGMRESSolver",
-                "real-dtype input to the Newton-Schulz classes, power_iteration, hessenbergize, rand_qsvd, qr_qua, rank",
+                "real-dtype input to the Newton-Schulz classes, power_iteration, hessenbergize, rand_qsvd / pass_eff_qsvd, the norms",
                 "a PSF larger than the image", "a truncation rank above min(m, n)", "1-D right-hand side for Q-GMRES"]}
